@@ -18,7 +18,7 @@
 (* source tie by translation: the lemmas of these files are obligations of this property *)
 From Soy Require Import Proofs.SourceTieLexer Proofs.SourceTieExpr Proofs.SourceTieParser Proofs.SourceTieText Proofs.SourceTieQuote.
 From Soy Require Import Model.Bytes Model.Outcome Model.Ast Model.Token Model.ExprParser Model.Parser Generated.Tables Model.Lexer Model.ParseBytes Spec.LexSpec
-  Proofs.LexerPrim Proofs.LexerProofs Proofs.LexShift Proofs.ParserMeasure Proofs.ParserProofs Proofs.LexParseBridge.
+  Proofs.LexerPrim Proofs.LexerProofs Proofs.LexShift Proofs.NumLitProofs Proofs.ParserMeasure Proofs.ParserProofs Proofs.LexParseBridge.
 Open Scope Z_scope.
 
 Theorem lex_total_linear : forall (uni_letter uni_digit : Z -> bool),
@@ -105,6 +105,13 @@ Theorem lex_expr_at_is_lex_expr_shifted : forall (uni_letter uni_digit : Z -> bo
   lex_items_at uni_letter uni_digit base fuel s = Ok (shift_items base ts).
 Proof. exact LexShift.lex_items_at_shift. Qed.
 Print Assumptions lex_expr_at_is_lex_expr_shifted.
+
+(* the parser model's conversion of float literals: the exact path (decimals that are exactly float64 values of
+   Num.v's window, used by C17's round-trip proofs) is a special case of the correctly rounded conversion
+   NumLit.parse_float_round, so newValueNode's float case is that conversion and nothing else *)
+Theorem float_exact_path_is_rounding : forall s f, NumLit.parse_float s = Some f -> NumLit.parse_float_round s = NumLit.FRVal f.
+Proof. exact NumLitProofs.parse_float_exact_is_rounded. Qed.
+Print Assumptions float_exact_path_is_rounding.
 
 Theorem soy_file_total_composed : forall (uni_letter uni_digit : Z -> bool),
   uni_letter (-1) = false -> uni_digit (-1) = false ->
